@@ -68,6 +68,9 @@ def pipelines(seed, root):
         ('none-args-silent', ch(src, nn), ['c', 'd', 'e', ('c', 'e')]),
         ('none-args-silent-disk', ch(src, nn, {'k': 'disk', 'names': ['c', 'e'], 'root': 0}), ['c', 'e']),
         ('merge', ch({'k': 'merge', 'parts': [src, src2]}, tr), ['c', 'ids']),
+        # a dataset without entries between two others: the routing table has no row for its branch
+        ('merge-empty-middle', ch({'k': 'merge', 'parts': [src, dict(src2, cls='PSE', ids=[]), src2]}, tr), ['c', 'a', 'ids', ('a', 'c')]),
+        ('merge-empty-first', ch({'k': 'merge', 'parts': [dict(src2, cls='PSE', ids=[]), src, src2]}), ['a', 'ids']),
         ('filter', ch(src, {'k': 'filter', 'f': 'pp', 'args': ['k'], 'table': [[['u'], True], [['v'], False]]}), ['ids', 'a']),
         ('filter-kw', ch(src, kw, {'k': 'filter', 'f': 'pe', 'args': ['e'], 'table': []}), ['ids']),
         ('filter-keep', ch(src, {'k': 'keep', 'ids': ['i1', 'i3']}), ['ids', 'a']),
